@@ -63,6 +63,10 @@ claim("C16", "closed-world enumeration of request-header reads + guard dominance
       "Structural necessary condition of non-interference (absence of a dependence path), for all requests/configurations: forwarding-header names are read only inside the three IsProxied-guarded accessors, their value is returned only under IsProxied==true, the flag has one writer fed from configuration, the client-IP parser exists only in reverse-proxy mode and reads its one configured header. Level 'other'.",
       TRUST + " Not decided: pairwise equality of whole responses (relational over values).", "DESIGN.md §5 C16")
 
+claim("C07", "SSA structure + path facts (strip/inject composition), who-may-use (handlers only through the chain), value provenance of injected values",
+      "Structural necessary condition for all sessions/header sets/option combinations: same list to strip and inject, strip first with canonicalising Del for exactly the non-preserved names, unconditionally; upstream handler and 202 writer reachable only through headersChain.Then; injected values only from GetClaim/config/constants; nil session injects nothing; legacy conversion applies skip-auth-strip-headers to every entry. Level 'other'.",
+      TRUST + " Not decided: legacy flag -> claim value tables, upstream header-name normalisation, GetClaim's per-claim values.", "DESIGN.md §5 C07")
+
 for i in range(2, 21):
     pid = "C%02d" % i
     if pid not in T:
